@@ -34,8 +34,10 @@ class Schema:
     def __init__(self, cls, **fields):
         self.cls = cls
         self.immutable = {f for f, k in fields.items() if k.endswith("!")}     # assigned only by __init__
+        alloc = fields.pop("_alloc", None)
+        self.immutable = {f for f, k in fields.items() if k.endswith("!")}
         self.fields = {f: k.rstrip("!") for f, k in fields.items()}
-        self.allocatable = bool(self.immutable)
+        self.allocatable = bool(self.immutable) if alloc is None else bool(alloc)
 
 
 SCHEMAS = {}
@@ -90,6 +92,8 @@ def wrap(kind, t, owner=None):
     if kind.startswith("list:"):
         cname = kind.split(":", 1)[1]
         cls = next((c for c in SCHEMAS if c.__name__ == cname), None)
+        if owner is not None:
+            return HeapList(owner[0], owner[1], owner[2], cls)
         return SymList(t, cls)
     if kind == "id":
         return SymId(t)
@@ -168,7 +172,8 @@ class SymRef(SymObject):
     def sym_getattr(self, interp, name):
         sch = SCHEMAS[self.cls]
         if name in sch.fields:
-            return wrap(sch.fields[name], z3.Select(heap_array(cur(), self.cls, name), self.ref))
+            return wrap(sch.fields[name], z3.Select(heap_array(cur(), self.cls, name), self.ref),
+                        owner=(self.cls, name, self.ref))
         if name == "__class__":
             return self.cls
         for klass in self.cls.__mro__:
@@ -418,6 +423,25 @@ class SymEnumerate(SymIterable):
         return (sym.mkint(zint(i) + self.start) if self.start else i, self.inner.elem(i))
 
 
+class HeapList(SymList):
+    """the list held by a field of a heap object: reads see the current heap, append / extend / index
+    stores write through to it"""
+
+    def __init__(self, owner_cls, field, ref, cls):
+        self._owner, self._field, self._ref = owner_cls, field, ref
+        self.cls, self.attrs, self.rev = cls, {}, False
+
+    @property
+    def t(self):
+        return z3.Select(heap_array(cur(), self._owner, self._field), self._ref)
+
+    @t.setter
+    def t(self, value):
+        p = cur()
+        set_heap_array(p, self._owner, self._field, z3.Store(heap_array(p, self._owner, self._field), self._ref, value))
+        p.ghost.setdefault("stores", []).append((self._owner.__name__, self._field))
+
+
 def install(interp):
     """builtin overrides aware of SymRef / SymList"""
     ov = interp.overrides
@@ -482,11 +506,10 @@ def allocate(interp, cls, args, kwargs):
     allocated before on this path and not below the allocation base), then the REAL __init__ is
     interpreted on it."""
     p = cur()
-    k = p.ghost.get("alloc_count", 0)
-    p.ghost["alloc_count"] = k + 1
+    ptr = alloc_ptr(p)
     r = p.fresh_int(f"new_{cls.__name__}")
-    p.assume(r == ALLOC_BASE + k)
-    p.assume(ALLOC_BASE >= 0)
+    p.assume(r == ptr)
+    p.ghost["alloc_ptr"] = ptr + 1
     ref = SymRef(cls, r)
     p.ghost.setdefault("constructing", set()).add(r.get_id())
     try:
@@ -500,6 +523,15 @@ def allocate(interp, cls, args, kwargs):
 ALLOC_BASE = z3.Int("alloc_base")
 
 
+def alloc_ptr(p):
+    """the next free identity on this path: every identity handed out so far is below it, identities of the
+    inputs are below ALLOC_BASE when the contract says so"""
+    if "alloc_ptr" not in p.ghost:
+        p.assume(ALLOC_BASE >= 0)
+        p.ghost["alloc_ptr"] = ALLOC_BASE
+    return p.ghost["alloc_ptr"]
+
+
 # --------------------------------------------------------------------------------------------- loops
 
 class LoopState:
@@ -511,6 +543,10 @@ class LoopState:
         self.entry_locals, self.entry_heap = entry_locals, entry_heap
         self.havoc_locals = havoc_locals          # values of the modified locals right after the havoc
         self.i_is_successor = successor           # this state is "after one more iteration" (index i-1 was just processed)
+
+    @property
+    def alloc_ptr(self):
+        return alloc_ptr(self.p)
 
     def local(self, name):
         return self.frame.locals.get(name)
@@ -637,6 +673,12 @@ def loop_rule(name, inv, locals_=None, fields=(), elem_cls=None, reverse=False):
         for cls, f in fields:
             set_heap_array(p, cls, f, z3.Const(p._name(f"H.{cls.__name__}.{f}"),
                                               z3.ArraySort(INT, _sort(SCHEMAS[cls].fields[f]))))
+        if p.ghost.get("symbolic_heap"):
+            # objects may have been allocated by earlier iterations
+            old_ptr = alloc_ptr(p)
+            new_ptr = p.fresh_int("alloc_ptr")
+            p.assume(new_ptr >= old_ptr)
+            p.ghost["alloc_ptr"] = new_ptr
         i = p.fresh_int("i")
         p.assume(z3.And(i >= 0, i <= n))
         # materialise optional locals (None or object) before assuming the invariant
@@ -653,12 +695,18 @@ def loop_rule(name, inv, locals_=None, fields=(), elem_cls=None, reverse=False):
             p.assume_or_end(i < n)
             idx = (n - 1 - i) if reverse else i
             interp.assign(node.target, seq.elem(sym.mkint(idx)), frame)
+            n_stores = len(p.ghost.get("stores", []))
             try:
                 interp.block(node.body, frame)
             except _Continue:
                 pass
             except _Break:
                 return None                # leaves the loop with the current state
+            # fields stored during the body - also by the functions it calls - must be covered by the contract
+            declared = {(c_.__name__, f_) for c_, f_ in fields}
+            extra = sorted({st for st in p.ghost.get("stores", [])[n_stores:] if st not in declared})
+            if extra:
+                raise Inapplicable(f"{name}: the loop body stores to {extra}, not covered by the loop contract")
             S1 = LoopState(i + 1, n, seq, frame, p, entry_locals, entry_heap, havoc_locals, True)
             for label, b in items(inv(S1)):
                 p.require(f"{name}/{label}/preserved", sym.zbool(b), kind="loop")
